@@ -490,6 +490,8 @@ func apiCatalogue(g *gen.Gen, seed int64, budget int, record func(name, owner st
 		mk(qrb.Least(qrb.N("a"), qrb.Int(9)), `Least(N("a"), Int(9))`), mk(qrb.NullIf(qrb.N("a"), qrb.Int(0)), `NullIf(N("a"), Int(0))`),
 		mk(qrb.Exps(qrb.Int(1), qrb.Int(2)), "Exps(Int(1), Int(2))"), mk(qrb.Array(qrb.Int(1), qrb.Int(2)), "Array(Int(1), Int(2))"),
 		mk(sel, `Select(N("a")).From(N("t"))`), mk(qrb.Exists(sel), "Exists(sel)"), mk(qrb.Any(sel), "Any(sel)"),
+		// an unset (nil) expression: filtered by And / Or, recorded as it is by everything else
+		{reflect.Zero(expIface), "nil"},
 	}
 	rng := rand.New(rand.NewSource(seed + 77))
 	fits := func(v reflect.Value, pt reflect.Type) bool { return v.Type().AssignableTo(pt) }
@@ -558,6 +560,9 @@ func apiCatalogue(g *gen.Gen, seed int64, budget int, record func(name, owner st
 	// methods of the catalogue values
 	for _, r := range cat {
 		rt := r.v.Type()
+		if rt.Kind() == reflect.Interface {
+			continue // the nil operand has no methods to call
+		}
 		for i := 0; i < rt.NumMethod(); i++ {
 			m := rt.Method(i)
 			mt := m.Type
